@@ -23,7 +23,7 @@ func init() {
 			"(c) for every accelerated setting every data size 1..400 (3000 thorough) of three content kinds: Write, Flush, Write 100 more, Flush (the number of bits pending when the sync marker is written sweeps all its values); " +
 			"oracle at every Flush()==nil on the bytes emitted so far; non-trivial = at least one Flush happened after at least one byte was written",
 		Assumptions: []string{"compress/flate and the reference inflater stand for 'any conforming inflater'"},
-		Quick:       TierSpec{MaxDev: -1, Shards: 4, ShardDepth: 3, BudgetS: 150},
+		Quick:       TierSpec{MaxDev: -1, Shards: 4, ShardDepth: 3, BudgetS: 600},
 		Thorough:    TierSpec{MaxDev: -1, Shards: 8, ShardDepth: 3, BudgetS: 1700},
 		Harness:     c10Harness,
 	})
